@@ -6,6 +6,7 @@
 (* What is enumerated is selected by the constants:                        *)
 (*   Scn     "get" | "set" | "init" | "bad" | "pairs" | "hdr"              *)
 (*           | "nearset" | "nearshared" | "nearinit" | "sentinel"          *)
+(*           | "domain"                                                    *)
 (*             (see Near-valid images)                                     *)
 (*   GViews  the views to cover                                            *)
 (*   NRand   number of pseudo-random background images                     *)
@@ -44,6 +45,8 @@ PlainImages(v) ==
                        \cup { [a |-> WalkZero(L, p), h |-> 0] : p \in 0..(8*L - 1) }
                   ELSE {})
 
+OneBit(k) == Mat([j \in 1..8 |-> IF 8 - (k \div 8) = j THEN P2[(k % 8) + 1] ELSE 0])   \* 2^k, k in 0..63
+AllFF  == Fill(8, 255)
 (***************************************************************************)
 (* Near-valid images.  An operation may take a short cut when the buffer   *)
 (* "already looks right" (value already in place, header already           *)
@@ -59,17 +62,37 @@ NearVals(w) == { Low(KVal, w), Low(KVal, (w + 1) \div 2), Zero64 }
 QuadsOf(v, f) == (FStart(v, f) \div 32)..((FStart(v, f) + FW(v, f) - 1) \div 32)
 NearFields(v) == IF Scn = "nearshared" THEN { f \in FieldNames(v) : \E g \in Shared : v \in g.views /\ f \in g.names }
                  ELSE FieldNames(v)
+\* arithmetic neighbours: the old value is one below / above the new one across a carry chain (2^k - 1 <-> 2^k, k on byte and
+\* quadlet boundaries), on all-zero and all-one backgrounds (every flag of the header clear / set): incremental-update short cuts
+CarryKs(w) == { k \in {8, 16, 24, 32, 40, 48, 56} : k < w }
+CarryVals(w) == UNION { { OneBit(k), Low(AllFF, k) } : k \in CarryKs(w) }
 NearSetImages(v) ==
   LET L == HdrLen[v] IN
   UNION { UNION { LET post == SetSem(Pat(5, L), 0, v, f, x) IN
                     { [a |-> FlipBit(post, p), h |-> 0, f |-> f, x |-> x] : p \in UNION { (32*q)..(32*q + 31) : q \in QuadsOf(v, f) } }
                     \cup { [a |-> RevQuad(post, q), h |-> 0, f |-> f, x |-> x] : q \in QuadsOf(v, f) }
                   : x \in NearVals(FW(v, f)) } : f \in NearFields(v) }
+  \cup UNION { UNION { { [a |-> SetSem(Pat(b, L), 0, v, f, Low(AllFF, k)), h |-> 0, f |-> f, x |-> OneBit(k)],
+                        [a |-> SetSem(Pat(b, L), 0, v, f, OneBit(k)), h |-> 0, f |-> f, x |-> Low(AllFF, k)] }
+                      : k \in CarryKs(FW(v, f)), b \in {0, 1} } : f \in NearFields(v) }
 NearInitImages(v) ==
   LET L == HdrLen[v]  c == CanonHdr(v) IN
      { [a |-> FlipBit(c, p), h |-> 0, f |-> "", x |-> Zero64] : p \in 0..(8*L - 1) }
   \cup { [a |-> SubSeq(c, 1, 4*q) \o SubSeq(Pat(k, L), 4*q + 1, L), h |-> 0, f |-> "", x |-> Zero64] : q \in 1..((L \div 4) - 1), k \in {1, 5} }
   \cup { [a |-> Arena(SubSeq(c, 1, 4) \o SubSeq(Pat(1, L), 5, L), 3, 5), h |-> 3, f |-> "", x |-> Zero64] }
+
+\* Domain-valued states.  Validation or short cuts that couple two fields are written about *meaningful* values (a format code, a
+\* bit depth, a channel count), which bit-pattern backgrounds never produce together.  All fields of at most 10 bits are set to
+\* small numbers at once, 121 images per view built like an orthogonal array over the 11 values DomVals: every pair of small
+\* fields takes every pair of these values in some image (row (i, j): field number t holds DomVals[(i + j*t) mod 11]).
+DomVals == <<0, 1, 2, 3, 4, 5, 8, 16, 24, 32, 255>>
+SmallFields(v) == LET fs == FieldsOf(v) IN SelectSeq([k \in 1..Len(fs) |-> fs[k].name], LAMBDA nm : FW(v, nm) <= 10)
+RECURSIVE DomFill(_, _, _, _, _, _)
+DomFill(m, v, fs, t, i, j) ==
+  IF t > Len(fs) THEN m
+  ELSE DomFill(SetSem(m, 0, v, fs[t], V64(DomVals[((i + j * t) % 11) + 1])), v, fs, t + 1, i, j)
+DomainImages(v) ==
+  { [a |-> DomFill(Fill(HdrLen[v], 0), v, SmallFields(v), 1, i, j), h |-> 0, f |-> "", x |-> Zero64] : i \in 0..10, j \in 0..10 }
 
 \* values that collide with in-band error codes (-errno as an unsigned value of the field's width)
 NegByte(e) == Mat([j \in 1..8 |-> IF j = 8 THEN 256 - e ELSE 255])      \* 2^64 - e, 1 <= e <= 255
@@ -83,8 +106,6 @@ SentinelImages(v) ==
 (***************************************************************************)
 (* Values per field width                                                  *)
 (***************************************************************************)
-OneBit(k) == Mat([j \in 1..8 |-> IF 8 - (k \div 8) = j THEN P2[(k % 8) + 1] ELSE 0])   \* 2^k, k in 0..63
-AllFF  == Fill(8, 255)
 AltA   == Fill(8, 170)
 Alt5   == Fill(8, 85)
 Vals(w) ==
@@ -125,6 +146,7 @@ StartImages(v) ==
   CASE Scn \in {"nearset", "nearshared"} -> NearSetImages(v)
     [] Scn = "nearinit" -> IF v \in InitViews THEN NearInitImages(v) ELSE {}
     [] Scn = "sentinel" -> SentinelImages(v)
+    [] Scn = "domain"   -> DomainImages(v)
     [] OTHER -> { [a |-> s.a, h |-> s.h, f |-> "", x |-> Zero64] : s \in PlainImages(v) }
 
 OpsTable ==      \* constant-level: evaluated once per view
@@ -133,8 +155,9 @@ OpsTable ==      \* constant-level: evaluated once per view
        [] Scn = "set"   -> SetOps(v)
        [] Scn = "init"  -> InitOps(v)
        [] Scn = "nearinit" -> InitOps(v)
-       [] Scn \in {"nearset", "nearshared"} -> UNION { { Op("set", v, f, p, x, "") : x \in NearVals(FW(v, f)), p \in Paths(v) } : f \in NearFields(v) }
+       [] Scn \in {"nearset", "nearshared"} -> UNION { { Op("set", v, f, p, x, "") : x \in NearVals(FW(v, f)) \cup CarryVals(FW(v, f)), p \in Paths(v) } : f \in NearFields(v) }
        [] Scn = "sentinel" -> GetOps(v)
+       [] Scn = "domain"   -> GetOps(v) \cup FewSetOps(v) \cup InitOps(v)
        [] Scn = "bad"   -> BadOps(v)
        [] Scn = "pairs" -> FewSetOps(v) \cup InitOps(v)
        [] Scn = "hdr"   -> GetOps(v) \cup FewSetOps(v) \cup InitOps(v) \cup { Op("payload", v, "", "current", Zero64, "") }
